@@ -37,6 +37,54 @@ type c14Op struct {
 type c14In struct {
 	Lru int     `json:"lru"` // size of the level cache (>= 1)
 	Ops []c14Op `json:"ops"`
+	// X: filters and topics use the compact notation {s*n} = s repeated n times
+	// (topics at the 65535-byte boundary); expanded before the code under test sees them
+	X bool `json:"x,omitempty"`
+}
+
+// c14Expand expands every {s*n} of the compact notation.
+func c14Expand(s string) string {
+	var sb strings.Builder
+	for {
+		i := strings.IndexByte(s, '{')
+		if i < 0 {
+			break
+		}
+		j := strings.IndexByte(s[i:], '}')
+		if j < 0 {
+			break
+		}
+		body := s[i+1 : i+j]
+		k := strings.LastIndexByte(body, '*')
+		n := 0
+		if k >= 0 {
+			fmt.Sscanf(body[k+1:], "%d", &n)
+		}
+		sb.WriteString(s[:i])
+		if k >= 0 {
+			sb.WriteString(strings.Repeat(body[:k], n))
+		}
+		s = s[i+j+1:]
+	}
+	sb.WriteString(s)
+	return sb.String()
+}
+
+func c14ExpandIn(in c14In) c14In {
+	if !in.X {
+		return in
+	}
+	out := c14In{Lru: in.Lru}
+	for _, op := range in.Ops {
+		o := op
+		o.F = nil
+		for _, f := range op.F {
+			o.F = append(o.F, c14Expand(f))
+		}
+		o.T = c14Expand(op.T)
+		out.Ops = append(out.Ops, o)
+	}
+	return out
 }
 
 type c14Sub struct {
@@ -99,6 +147,7 @@ func c14Drain(c *Client) (suback, unsuback bool) {
 }
 
 func c14Run(in c14In) (obs c14Obs) {
+	in = c14ExpandIn(in)
 	b := c14GetBroker()
 	lru := in.Lru
 	if lru < 1 {
@@ -301,6 +350,93 @@ func c14TopicFrom(r *vfRand, f string) string {
 		out = []string{c14Lit(r)}
 	}
 	return strings.Join(out, "/")
+}
+
+// c14GenLong: topic names and filters at the MQTT length boundary (65535 bytes = the
+// largest value of the two-byte length prefix, and just below), as one huge level, as
+// dev/<pad>/state, as tens of thousands of one-byte or empty levels; subscribed,
+// published (find) and unsubscribed; written in the compact {s*n} notation.
+func c14GenLong(r *vfRand) c14In {
+	in := c14In{Lru: r.Range(1, 3), X: true}
+	L := r.PickInt(65535, 65535, 65535, 65535, 65534, 65534, 65533, r.Range(60000, 65535))
+	rep := func(s string, n int) string { return fmt.Sprintf("{%s*%d}", s, n) }
+	var topic, near string    // the boundary topic and a topic one byte shorter
+	var match, other []string // long/short filters that match topic, filters that do not
+	var bad []string          // malformed filters of the same length
+	switch r.Intn(5) {
+	case 0: // one huge level
+		topic, near = rep("x", L), rep("x", L-1)
+		match = []string{topic, "#", "+", "+/#"}
+		other = []string{near, rep("x", L-1) + "y", "+/+"}
+		bad = []string{rep("x", L-1) + "#", rep("x", L-1) + "+", "#" + rep("x", L-1)}
+	case 1: // dev/<pad>/state
+		pad := L - len("dev//state")
+		topic, near = "dev/"+rep("x", pad)+"/state", "dev/"+rep("x", pad-1)+"/state"
+		match = []string{"dev/+/state", "dev/#", topic, "dev/" + rep("x", pad) + "/#", "+/" + rep("x", pad) + "/+"}
+		other = []string{near, "dev/+", "dev/" + rep("x", pad) + "/stat", "dev/+/state/+"}
+		bad = []string{"dev/" + rep("x", pad-1) + "+/state", "dev/" + rep("x", pad-4) + "/#/state"}
+	case 2: // tens of thousands of one-byte levels
+		k := (L - 1) / 2
+		last := "a"
+		if L%2 == 0 {
+			last = "ab"
+		}
+		topic, near = rep("a/", k)+last, rep("a/", k-1)+last
+		match = []string{topic, "#", "a/#", rep("+/", k) + "+", rep("a/", k) + "#", rep("a/", k-1) + "a/+"}
+		other = []string{near, rep("+/", k-1) + "+", rep("a/", k) + last + "/+", rep("a/", k-1) + "b/+"}
+		bad = []string{rep("a/", k-1) + "#/" + last, rep("+/", k-1) + "++/a"}
+	case 3: // only separators: L+1 empty levels
+		topic, near = rep("/", L), rep("/", L-1)
+		match = []string{topic, "#", "/#", rep("/", L-1) + "#", rep("+/", L/2) + "#"}
+		other = []string{near, rep("/", L-1) + "+", rep("/", L-2) + "+", rep("/", L-1) + "a"}
+		bad = []string{rep("/", L-2) + "#/", rep("/", L-2) + "++"}
+	default: // thousands of 9-byte levels and a last level that takes up the rest
+		const lvl = "yyyyyyyyy/" // the notation does not nest: a literal unit
+		n := L / len(lvl)
+		rest := L - n*len(lvl)
+		if rest == 0 {
+			n, rest = n-1, len(lvl)
+		}
+		topic, near = rep(lvl, n)+rep("z", rest), rep(lvl, n)+rep("z", rest-1)
+		match = []string{topic, "#", rep("+/", n) + "+", rep(lvl, n) + "#", rep(lvl, n) + "+"}
+		other = []string{near, rep("+/", n-1) + "+", rep(lvl, n-1) + "+"}
+		bad = []string{rep(lvl, n) + rep("z", rest-1) + "#"}
+	}
+	pick := func(xs []string) string { return xs[r.Intn(len(xs))] }
+	find := func(t string) { in.Ops = append(in.Ops, c14Op{K: "find", T: t}) }
+	sub := func(c string, fs ...string) {
+		op := c14Op{K: "sub", C: c}
+		for _, f := range fs {
+			op.F = append(op.F, f)
+			op.Q = append(op.Q, r.Intn(3))
+		}
+		in.Ops = append(in.Ops, op)
+	}
+	m1, m2 := pick(match), pick(match)
+	sub("c1", m1)
+	sub("c2", topic, pick(other))
+	find(topic)
+	if r.Bool() {
+		sub("c3", m2, pick(other))
+	} else {
+		sub("c3", pick(bad)) // refused: no SUBACK, nothing routed
+		sub("c3", m2)
+	}
+	find(topic)
+	find(near)
+	switch r.Intn(3) {
+	case 0:
+		in.Ops = append(in.Ops, c14Op{K: "unsub", C: "c2", F: []string{topic}})
+	case 1:
+		in.Ops = append(in.Ops, c14Op{K: "unsub", C: "c1", F: []string{pick(other), m1}})
+	default:
+		in.Ops = append(in.Ops, c14Op{K: "disc", C: pick([]string{"c1", "c2", "c3"})})
+	}
+	find(topic)
+	if r.Bool() {
+		find(near)
+	}
+	return in
 }
 
 // c14GenWide: one trie node (the root or a node one/two levels down) gets 30-80 distinct
@@ -509,7 +645,7 @@ func TestVerifC14(t *testing.T) {
 	defer out.Close()
 	for _, sc := range vfStored("") {
 		switch sc.Grp {
-		case "hist", "wild":
+		case "hist", "wild", "long":
 			var in c14In
 			if err := json.Unmarshal(sc.In, &in); err != nil {
 				t.Fatal(err)
@@ -542,6 +678,9 @@ func TestVerifC14(t *testing.T) {
 	for i := 0; i < n; i++ {
 		r := root.Fork(i)
 		switch {
+		case i%150 == 75 && i < 6000:
+			in := c14GenLong(r)
+			out.Emit(vfCase{ID: fmt.Sprintf("%s-long-%d", src, i), Src: src, Grp: "long", In: in, Obs: c14Run(in)})
 		case i%12 == 0:
 			in := c14GenWide(r, adv)
 			out.Emit(vfCase{ID: fmt.Sprintf("%s-wide-%d", src, i), Src: src, Grp: "hist", In: in, Obs: c14Run(in)})
